@@ -127,6 +127,9 @@ def step(draw):
         s["k"] = draw(st.sampled_from([1.1, 0.5, 2.0]))
     elif kind == "partition_other":
         s["shape"] = [draw(st.integers(1, 12)), draw(st.integers(1, 16))]
+        # shapes related to the live object's own grid: transposed, or another factorisation of its bin count
+        s["shape_mode"] = draw(st.sampled_from(["random", "transpose", "factor", "factor"]))
+        s["pick"] = draw(st.integers(0, 7))
         s["spec"] = draw(gen.spectrum(kinds=("multi", "sparse", "constant")))
         s["ihmax"] = draw(st.sampled_from([3, 100]))
     elif kind == "attr_lookup":
@@ -308,6 +311,15 @@ def check_history(case, ctx):
             L.model["coords"]["freq"] = np.array(nf_)
             edited += 1
         elif k == "partition_other":
+            shp = list(s["shape"])
+            nfl, ndl = len(L.model["coords"]["freq"]), len(L.model["coords"]["dir"])
+            if s.get("shape_mode") == "transpose":
+                shp = [ndl, nfl]
+            elif s.get("shape_mode") == "factor":
+                n = nfl * ndl
+                pairs = [(a_, n // a_) for a_ in range(1, n + 1) if n % a_ == 0 and (a_, n // a_) != (nfl, ndl)]
+                shp = list(pairs[s.get("pick", 0) % len(pairs)])
+            s = dict(s, shape=shp)
             a = gen.build_spectrum(s["spec"], s["shape"][0], s["shape"][1], dtype=np.float32)
             specpart.partition(a, s["ihmax"])
             shapes_seen.add(tuple(s["shape"]))
